@@ -1,0 +1,274 @@
+//go:build verif && (verif_all || verif_c16)
+// +build verif
+// +build verif_all verif_c16
+
+package gocql
+
+// Verification hooks (build tag `verif`) for two parts of C16. Add-only thin wrappers.
+//
+// (1) Event-debouncer schedules ("an event arrives after a flush, BEFORE the handler goroutine of that flush
+//     has looked at its batch"): a REAL eventDebouncer (newEventDebouncer, its flusher goroutine, debounce, flush)
+//     whose callback reports that its goroutine was started and then waits for the harness before it READS the
+//     frames it was handed; the armed debounce timer is made to expire by hand (logical time).
+//
+// (2) The token-aware policy's cluster metadata (token ring + per-keyspace replica tables) as part of the session's
+//     picture of the cluster: keyspace metadata supplied by the harness, a snapshot of the hosts the metadata
+//     refers to, and the hosts the REAL Pick offers for a routed query.
+
+import (
+	"sync"
+	"sync/atomic"
+	"time"
+)
+
+// VerifEvQueue drives a real eventDebouncer.
+type VerifEvQueue struct {
+	e       *eventDebouncer
+	entered chan int // ordinals (0, 1, …) of the callback goroutines that have started
+	mu      sync.Mutex
+	gates   map[int]chan struct{}
+	read    chan []string
+	n       int32
+}
+
+func verifFrameString(f frame) string {
+	switch t := f.(type) {
+	case *statusChangeEventFrame:
+		return t.change + " " + t.host.String()
+	case *topologyChangeEventFrame:
+		return "TOPOLOGY " + t.host.String()
+	case nil:
+		return "nil"
+	}
+	return "?"
+}
+
+// NewVerifEvQueue: the callback sends its ordinal on Entered(), waits for Run(ordinal), and only then reads the
+// frames of the slice it was given (what Session.handleNodeEvent does first thing).
+func NewVerifEvQueue() *VerifEvQueue {
+	v := &VerifEvQueue{entered: make(chan int, 4096), gates: map[int]chan struct{}{}, read: make(chan []string, 1)}
+	v.e = newEventDebouncer("verifNodeEvents", func(frames []frame) {
+		k := int(atomic.AddInt32(&v.n, 1)) - 1
+		g := make(chan struct{})
+		v.mu.Lock()
+		v.gates[k] = g
+		v.mu.Unlock()
+		v.entered <- k
+		<-g
+		out := make([]string, 0, len(frames))
+		for _, f := range frames {
+			out = append(out, verifFrameString(f))
+		}
+		v.read <- out
+	}, nopLogger{})
+	return v
+}
+
+// Debounce hands one node event frame to the debouncer (what Session.handleEvent does).
+func (v *VerifEvQueue) Debounce(ev VerifNodeEvent) {
+	if ev.Kind == "topology" {
+		v.e.debounce(&topologyChangeEventFrame{change: ev.Change, host: ev.Host, port: ev.Port})
+	} else {
+		v.e.debounce(&statusChangeEventFrame{change: ev.Change, host: ev.Host, port: ev.Port})
+	}
+}
+
+func (v *VerifEvQueue) Entered() <-chan int { return v.entered }
+
+// State (under the debouncer's mutex): frames in the buffer; is the debounce timer running (a running timer is
+// re-armed with the debounce time, as one more debounce() at this instant would do).
+func (v *VerifEvQueue) State() (buffered int, timer bool) {
+	e := v.e
+	e.mu.Lock()
+	defer e.mu.Unlock()
+	if e.timer.Stop() {
+		e.timer.Reset(eventDebounceTime)
+		timer = true
+	}
+	return len(e.events), timer
+}
+
+// Fire lets time pass until the debounce timer expires: a running timer is made to expire now, a timer that is not
+// running is left alone. It returns whether the timer was running and how many frames the buffer held.
+func (v *VerifEvQueue) Fire() (wasRunning bool, buffered int) {
+	e := v.e
+	e.mu.Lock()
+	defer e.mu.Unlock()
+	if e.timer.Stop() {
+		e.timer.Reset(1)
+		return true, len(e.events)
+	}
+	return false, len(e.events)
+}
+
+// Run lets the callback goroutine with that ordinal read its batch and returns the frames it saw.
+func (v *VerifEvQueue) Run(k int, patience time.Duration) ([]string, bool) {
+	v.mu.Lock()
+	g, ok := v.gates[k]
+	delete(v.gates, k)
+	v.mu.Unlock()
+	if !ok {
+		return nil, false
+	}
+	close(g)
+	select {
+	case out := <-v.read:
+		return out, true
+	case <-time.After(patience):
+		return nil, false
+	}
+}
+
+// Stop stops the debouncer and lets every waiting callback goroutine finish.
+func (v *VerifEvQueue) Stop() {
+	v.e.stop()
+	v.mu.Lock()
+	gs := v.gates
+	v.gates = map[int]chan struct{}{}
+	v.mu.Unlock()
+	for range gs {
+		go func() { <-v.read }()
+	}
+	for _, g := range gs {
+		close(g)
+	}
+}
+
+// ---- (2) token-aware metadata
+
+// VerifTokenAwareInstall replaces the two session call-backs of a token-aware policy (set by Init): the name of the
+// session keyspace and the keyspace metadata lookup. False when the policy is not token aware.
+func VerifTokenAwareInstall(p HostSelectionPolicy, sessionKeyspace string, meta func(ks string) (*KeyspaceMetadata, error)) bool {
+	t, ok := p.(*tokenAwareHostPolicy)
+	if !ok {
+		return false
+	}
+	t.mu.Lock()
+	t.getKeyspaceName = func() string { return sessionKeyspace }
+	t.getKeyspaceMetadata = meta
+	t.mu.Unlock()
+	return true
+}
+
+// VerifTokenMeta is what the token-aware policy's metadata refers to.
+type VerifTokenMeta struct {
+	HasRing   bool
+	RingHosts []*HostInfo            // tokenRing.hosts
+	RingOwner []*HostInfo            // distinct hosts owning a token of tokenRing.tokens
+	Replicas  map[string][]*HostInfo // keyspace -> distinct hosts of its replica table
+}
+
+func verifDistinct(l []*HostInfo, seen map[*HostInfo]bool, h *HostInfo) []*HostInfo {
+	if seen[h] {
+		return l
+	}
+	seen[h] = true
+	return append(l, h)
+}
+
+// VerifTokenMetaSnapshot reads the current metadata of a token-aware policy.
+func VerifTokenMetaSnapshot(p HostSelectionPolicy) (VerifTokenMeta, bool) {
+	var out VerifTokenMeta
+	t, ok := p.(*tokenAwareHostPolicy)
+	if !ok {
+		return out, false
+	}
+	meta := t.getMetadataReadOnly()
+	out.Replicas = map[string][]*HostInfo{}
+	if meta == nil {
+		return out, true
+	}
+	if meta.tokenRing != nil {
+		out.HasRing = true
+		out.RingHosts = append(out.RingHosts, meta.tokenRing.hosts...)
+		seen := map[*HostInfo]bool{}
+		for _, ht := range meta.tokenRing.tokens {
+			out.RingOwner = verifDistinct(out.RingOwner, seen, ht.host)
+		}
+	}
+	for ks, rep := range meta.replicas {
+		seen := map[*HostInfo]bool{}
+		l := []*HostInfo{}
+		for _, ht := range rep {
+			for _, h := range ht.hosts {
+				l = verifDistinct(l, seen, h)
+			}
+		}
+		out.Replicas[ks] = l
+	}
+	return out, true
+}
+
+// VerifPickRouted returns the hosts the session's REAL policy offers, in order, for a query on that keyspace with
+// that routing key (nil key = no routing information).
+func VerifPickRouted(s *Session, keyspace string, routingKey []byte) []*HostInfo {
+	q := &Query{routingKey: routingKey, session: s}
+	q.routingInfo = &queryRoutingInfo{keyspace: keyspace}
+	var out []*HostInfo
+	var next NextHost
+	if routingKey == nil {
+		next = s.policy.Pick(nil)
+	} else {
+		next = s.policy.Pick(q)
+	}
+	for i := 0; i < 4096; i++ {
+		h := next()
+		if h == nil {
+			break
+		}
+		out = append(out, h.Info())
+	}
+	return out
+}
+
+// ---- (3) schema events: the REAL Session.handleSchemaEvent (schema cache invalidation + KeyspaceChanged)
+
+// VerifSchemaEvent is one SCHEMA_CHANGE event: Kind "keyspace" | "table" | "type" | "function" | "aggregate".
+type VerifSchemaEvent struct {
+	Kind     string
+	Change   string
+	Keyspace string
+}
+
+// VerifHandleSchemaEvent calls the real Session.handleSchemaEvent on the frames (what the schema-event debouncer's
+// callback does). A keyspace event waits for schema agreement on the control connection first: the wait is bounded by
+// maxWait.
+func VerifHandleSchemaEvent(s *Session, evs []VerifSchemaEvent, maxWait time.Duration) {
+	s.cfg.MaxWaitSchemaAgreement = maxWait
+	frames := make([]frame, 0, len(evs))
+	for _, e := range evs {
+		switch e.Kind {
+		case "keyspace":
+			frames = append(frames, &schemaChangeKeyspace{change: e.Change, keyspace: e.Keyspace})
+		case "table":
+			frames = append(frames, &schemaChangeTable{change: e.Change, keyspace: e.Keyspace, object: "t"})
+		case "type":
+			frames = append(frames, &schemaChangeType{change: e.Change, keyspace: e.Keyspace, object: "u"})
+		case "function":
+			frames = append(frames, &schemaChangeFunction{change: e.Change, keyspace: e.Keyspace, name: "f"})
+		default:
+			frames = append(frames, &schemaChangeAggregate{change: e.Change, keyspace: e.Keyspace, name: "a"})
+		}
+	}
+	s.handleSchemaEvent(frames)
+}
+
+// VerifSchemaCachePut puts keyspace metadata into the session's schema cache (as a KeyspaceMetadata() call would).
+func VerifSchemaCachePut(s *Session, ks string) {
+	d := s.schemaDescriber
+	d.mu.Lock()
+	d.cache[ks] = &KeyspaceMetadata{Name: ks}
+	d.mu.Unlock()
+}
+
+// VerifSchemaCached returns the keyspaces the session's schema cache holds.
+func VerifSchemaCached(s *Session) []string {
+	d := s.schemaDescriber
+	d.mu.Lock()
+	defer d.mu.Unlock()
+	out := make([]string, 0, len(d.cache))
+	for ks := range d.cache {
+		out = append(out, ks)
+	}
+	return out
+}
